@@ -94,7 +94,7 @@ def oracle(ctx):
     from pyorbital import orbital
     n = ctx.size(120, 4000)
     worst = {"dv": 0.0, "incl": 0.0, "energy": 0.0}
-    for (l1, l2) in gen_tles(ctx, n):
+    for (l1, l2) in tlegen.with_twins(ctx.rng, gen_tles(ctx, n), every=5):
         try:
             o = orbital.Orbital("x", line1=l1, line2=l2)
             o.get_position(o.tle.epoch)
@@ -125,6 +125,21 @@ def oracle(ctx):
             r = float(np.linalg.norm(p))
             if not (rp - 40.0 <= r <= ra + 40.0):
                 ctx.violation("distance_band", case, r, "[%.3f, %.3f] km (perigee/apogee radii +-40 km)" % (rp - 40, ra + 40), site="Orbital.get_position")
+            # the same band from the perigee / apogee heights the propagator itself exposes
+            mp, ma = getattr(o._sgdp4, "perigee", None), getattr(o._sgdp4, "apogee", None)
+            if mp is not None and ma is not None and not (float(mp) + XKMPER - 40.0 <= r <= float(ma) + XKMPER + 40.0):
+                ctx.violation("distance_band_model", case, r, "[%.3f, %.3f] km (the model's perigee/apogee heights + %.3f, +-40 km)" % (
+                    float(mp) + XKMPER - 40, float(ma) + XKMPER + 40, XKMPER), site="_SGDP4Base.perigee/apogee")
+            # the default (normalised) output is the same state in units of 6378.135 km and 106.30225 km/s
+            try:
+                pn, vn = o.get_position(t)
+                dn = float(np.linalg.norm(v - np.asarray(vn) * 106.30225)) / speed
+                dpn = float(np.linalg.norm(np.asarray(pn) * 6378.135 - p)) / r
+                if dn > 1e-9 or dpn > 1e-9:
+                    ctx.violation("normalised_state", case, {"pos_n": list(pn), "vel_n": list(vn), "rel_v": dn, "rel_p": dpn},
+                                  "the same state (velocity*106.30225 km/s, position*6378.135 km), so that its velocity is the derivative of its position too", site="Orbital.get_position(normalize=True)")
+            except Exception:  # noqa
+                pass
             hvec = np.cross(p, v)
             inc = math.degrees(math.acos(max(-1.0, min(1.0, float(hvec[2] / np.linalg.norm(hvec))))))
             di = abs(inc - float(o.tle.inclination))
@@ -205,5 +220,20 @@ def replay(ctx, case):
         p1, _ = o.get_position(t + h, normalize=False)
         p0, _ = o.get_position(t - h, normalize=False)
         print("v", v, "dp/dt", (p1 - p0) / 2)
+        speed = float(np.linalg.norm(v))
+        r = float(np.linalg.norm(p))
+        bad = float(np.linalg.norm((p1 - p0) / 2.0 - v)) / speed > 0.0015
+        pn, vn = o.get_position(t)
+        bad = bad or float(np.linalg.norm(v - np.asarray(vn) * 106.30225)) / speed > 1e-9
+        mp, ma = getattr(o._sgdp4, "perigee", None), getattr(o._sgdp4, "apogee", None)
+        if mp is not None and ma is not None:
+            bad = bad or not (float(mp) + XKMPER - 40.0 <= r <= float(ma) + XKMPER + 40.0)
+        a_km = float(o.orbit_elements.semi_major_axis) * XKMPER
+        hvec = np.cross(p, v)
+        inc = math.degrees(math.acos(max(-1.0, min(1.0, float(hvec[2] / np.linalg.norm(hvec))))))
+        bad = bad or abs(inc - float(o.tle.inclination)) > 0.05
+        bad = bad or abs((speed ** 2 / 2 - MU / r) - (-MU / (2 * a_km))) / abs(MU / (2 * a_km)) > 0.01
+        print("violated" if bad else "holds")
+        return 1 if bad else 0
     print("period", o.orbit_elements.period, "perigee", o.orbit_elements.perigee, "sma km", o.orbit_elements.semi_major_axis * XKMPER)
     return 0
